@@ -737,7 +737,7 @@ def check_constants(ck, info):
     ck.notes["constants_compared"] = len(got)
 
 
-def check_generator(ck, runs=5):
+def check_generator(ck, runs=40):
     """The real generator, invoked as the Makefile does, `runs` times; gofmt; byte comparison with the committed file."""
     work = os.path.join(BUILD, "c16gen")
     shutil.rmtree(work, ignore_errors=True)
@@ -747,10 +747,16 @@ def check_generator(ck, runs=5):
     gofmt = os.path.join(goroot.strip().split("\n")[-1], "bin", "gofmt")
     committed = open(os.path.join(REPO, gen_p4const.SRC_REL), "rb").read()
     outs = []
+    # built once (what `go run` does on every invocation), then run many times: an iteration order that happens to come
+    # out right most of the time must not slip through
+    binary = os.path.join(work, "p4info_code_gen")
+    rc, o = sh(["go", "build", "-o", binary, "./cmd/p4info_code_gen/p4info_code_gen.go"], cwd=REPO, env=env, timeout=900)
+    if rc != 0:
+        ck.tie("the generator cmd/p4info_code_gen builds and runs on the shipped P4Info", False, o[-1500:])
+        return
     for i in range(runs):
         out = os.path.join(work, f"p4constants_{i}.go")
-        rc, o = sh(["go", "run", "./cmd/p4info_code_gen/p4info_code_gen.go", "-output", out, "-p4info", "conf/p4/bin/p4info.txt"],
-                   cwd=REPO, env=env, timeout=900)
+        rc, o = sh([binary, "-output", out, "-p4info", "conf/p4/bin/p4info.txt"], cwd=REPO, env=env, timeout=300)
         if rc != 0 or not os.path.exists(out):
             ck.tie("the generator cmd/p4info_code_gen builds and runs on the shipped P4Info", False, o[-1500:])
             return
@@ -764,7 +770,9 @@ def check_generator(ck, runs=5):
     if len(set(outs)) != 1:
         ck.fail("generator:nondeterministic", f"{len(set(outs))} different outputs in {runs} runs of the generator on the same P4Info",
                 {"distinct_outputs": len(set(outs))})
-    if outs[0] != committed:
+    differing = [x for x in outs if x != committed]
+    if differing:
+        outs[0] = differing[0]
         a, b = outs[0].decode(errors="replace").split("\n"), committed.decode(errors="replace").split("\n")
         first = next((i for i, (x, y) in enumerate(zip(a, b)) if x != y), min(len(a), len(b)))
         ck.fail("generator:output-differs-from-committed", f"regenerated p4constants.go differs from the committed file at line {first + 1}",
@@ -806,7 +814,7 @@ def run(tier, seed, replay=None):
         return ck.finish()
     # --- constants and generator
     check_constants(ck, info)
-    check_generator(ck, 5 if tier == "quick" else 12)
+    check_generator(ck, 40 if tier == "quick" else 200)
     # --- writes
     rng = rng_for(seed, "C16")
     if replay is None:
